@@ -393,11 +393,19 @@ func Run(prefix []int, bodies []func()) *Sched {
 	}
 }
 
+// StopExploring can be set by the visit callback to end the current exploration early
+// (used once a violation has been found and confirmed: the verdict is already decided).
+var StopExploring bool
+
 // Explore does preemption-bounded depth-first search (bound < 0: unbounded); visit is
 // called once per execution. limit > 0 caps the number of executions (returns capped=true).
 func Explore(bound int, limit int, bodies func() []func(), visit func(s *Sched)) (execs int, capped bool) {
+	StopExploring = false
 	var rec func(prefix []int)
 	rec = func(prefix []int) {
+		if StopExploring {
+			return
+		}
 		if limit > 0 && execs >= limit {
 			capped = true
 			return
